@@ -350,8 +350,9 @@ def resolveImports(sheet, target=None):
 
             if rule.hrefFound:
                 # add all rules of @import to current sheet
+                # (a "*/" in the URL would end the comment: written apart)
                 target.add(css.CSSComment(cssText='/* START @import "%s" */'
-                                          % rule.href))
+                                          % rule.href.replace('*/', '* /')))
 
                 try:
                     # nested imports
